@@ -1,5 +1,7 @@
 import WK.Spec.C31
 import WK.Model.C31
+import WK.Proofs.C31_judge
+import WK.Gen.C31
 /-
   C31 — Online delivery preserves per-channel order and recipient coverage.
 -/
@@ -458,5 +460,221 @@ example : (runJ { world := [(1, [(1, 11)])], retryMax := 2 }
     [.msg 1001 1 1 1 0 0 0 [1], .pres 1001 0 true [1], .write 1001 1 1 11 2, .write 1001 1 1 11 1]).toBool = true := by decide
 example : (runJ { world := [(1, [(1, 11)])], retryMax := 2 }
     [.msg 1001 1 1 1 0 0 0 [1], .pres 1001 0 true [1], .write 1001 1 1 11 1, .write 1001 1 1 11 1]).toBool = false := by decide
+
+/-! ## stop / quiesce -/
+
+/-- every admitted plan is finished, queued or running -/
+def Acct (st : SSt) : Prop :=
+  ∀ p, p < st.q.next → p ∈ st.finished ∨ (∃ sh c, (p, c) ∈ st.q.queue sh) ∨ (∃ sh c n, st.q.cur sh = some (p, c, n))
+
+theorem acct_step {shardOf : Nat → Nat} {st st' : SSt} (l : SL) (hA : Acct st)
+    (h : sstep shardOf st l = some st') : Acct st' := by
+  cases l with
+  | stop => simp only [sstep] at h; cases h; exact hA
+  | q l =>
+    cases l with
+    | enq c =>
+      simp only [sstep] at h
+      split at h
+      · cases h
+      · simp only [qstep, Option.map_some, Option.some.injEq] at h
+        subst h
+        intro p hp
+        simp only at hp
+        by_cases hpn : p = st.q.next
+        · subst hpn
+          right; left
+          exact ⟨shardOf c, c, by simp⟩
+        · rcases hA p (by omega) with h1 | ⟨sh, c', h1⟩ | h1
+          · exact Or.inl h1
+          · right; left
+            refine ⟨sh, c', ?_⟩
+            by_cases hs : sh = shardOf c
+            · subst hs; simp [h1]
+            · simpa [updF_ne _ _ hs] using h1
+          · exact Or.inr (Or.inr h1)
+    | pop sh n =>
+      simp only [sstep, qstep] at h
+      split at h
+      · rename_i hcur hq
+        rename_i p0 c0 rest
+        simp only [Option.map_some, Option.some.injEq] at h
+        subst h
+        intro p hp
+        rcases hA p hp with h1 | ⟨s2, c', h1⟩ | ⟨s2, c', n', h1⟩
+        · exact Or.inl h1
+        · by_cases hs : s2 = sh
+          · subst hs
+            rw [hq] at h1
+            rcases List.mem_cons.mp h1 with h2 | h2
+            · right; right
+              refine ⟨s2, c0, n, ?_⟩
+              simp only [Prod.mk.injEq] at h2
+              simp [h2.1]
+            · right; left; exact ⟨s2, c', by simpa using h2⟩
+          · right; left; exact ⟨s2, c', by simpa [updF_ne _ _ hs] using h1⟩
+        · right; right
+          have hs : s2 ≠ sh := by intro hs; subst hs; rw [hcur] at h1; cases h1
+          exact ⟨s2, c', n', by simpa [updF_ne _ _ hs] using h1⟩
+      · simp at h
+    | emit sh =>
+      simp only [sstep, qstep] at h
+      split at h
+      · rename_i p0 c0 n0 hcur
+        simp only [Option.map_some, Option.some.injEq] at h
+        subst h
+        intro p hp
+        rcases hA p hp with h1 | h1 | ⟨s2, c', n', h1⟩
+        · exact Or.inl h1
+        · exact Or.inr (Or.inl h1)
+        · right; right
+          by_cases hs : s2 = sh
+          · subst hs
+            rw [hcur] at h1
+            simp only [Option.some.injEq, Prod.mk.injEq] at h1
+            exact ⟨s2, c0, n0, by simp [h1.1]⟩
+          · exact ⟨s2, c', n', by simpa [updF_ne _ _ hs] using h1⟩
+      · simp at h
+    | finish sh =>
+      simp only [sstep] at h
+      split at h
+      · rename_i p0 c0 n0 hcur
+        simp only [qstep, hcur] at h
+        split at h
+        · rename_i hz
+          simp only [Option.map_some, Option.some.injEq] at h
+          subst h
+          intro p hp
+          rcases hA p hp with h1 | h1 | ⟨s2, c', n', h1⟩
+          · exact Or.inl (List.mem_append_left _ h1)
+          · exact Or.inr (Or.inl h1)
+          · by_cases hs : s2 = sh
+            · subst hs
+              rw [hcur] at h1
+              simp only [Option.some.injEq, Prod.mk.injEq] at h1
+              left; simp [h1.1]
+            · right; right; exact ⟨s2, c', n', by simpa [updF_ne _ _ hs] using h1⟩
+        · simp at h
+      · cases h
+
+theorem acct_reach {shardOf : Nat → Nat} {st : SSt} (h : SReach shardOf st) : Acct st := by
+  induction h with
+  | init => intro p hp; simp at hp
+  | step l _ hs ih => exact acct_step l ih hs
+
+/-- Stop / quiesce: once `Stop` has closed admission, no further plan is admitted;
+    and a state in which no worker has anything left to do (no pop, no push attempt,
+    no plan to finish — the state in which the workers exit and `Stop` returns) is a
+    state in which EVERY admitted plan has been processed to its end. -/
+theorem c31_stop_quiescent {shardOf : Nat → Nat} {st : SSt} (h : SReach shardOf st) (hs : st.stopping = true)
+    (hq : ∀ sh, sstep shardOf st (.q (.pop sh 0)) = none ∧ sstep shardOf st (.q (.emit sh)) = none ∧
+                sstep shardOf st (.q (.finish sh)) = none) :
+    (∀ c, sstep shardOf st (.q (.enq c)) = none) ∧ (∀ p, p < st.q.next → p ∈ st.finished) := by
+  refine ⟨fun c => by simp [sstep, hs], ?_⟩
+  have hcur : ∀ sh, st.q.cur sh = none := by
+    intro sh
+    cases hc : st.q.cur sh with
+    | none => rfl
+    | some v =>
+      obtain ⟨p, c, n⟩ := v
+      cases n with
+      | zero => have := (hq sh).2.2; simp [sstep, qstep, hc] at this
+      | succ n => have := (hq sh).2.1; simp [sstep, qstep, hc] at this
+  have hqueue : ∀ sh, st.q.queue sh = [] := by
+    intro sh
+    cases hqe : st.q.queue sh with
+    | nil => rfl
+    | cons x rest =>
+      obtain ⟨p, c⟩ := x
+      have := (hq sh).1; simp [sstep, qstep, hcur sh, hqe] at this
+  intro p hp
+  rcases acct_reach h p hp with h1 | ⟨sh, c, h1⟩ | ⟨sh, c, n, h1⟩
+  · exact h1
+  · rw [hqueue sh] at h1; cases h1
+  · rw [hcur sh] at h1; cases h1
+
+example : ∃ st, srun (fun c => c % 2) {} [.q (.enq 4), .q (.enq 5), .q (.pop 0 1), .stop, .q (.emit 0), .q (.finish 0), .q (.pop 1 0), .q (.finish 1)] = some st ∧
+    st.stopping = true ∧ st.finished = [0, 1] ∧ st.q.next = 2 ∧ sstep (fun c => c % 2) st (.q (.enq 7)) = none := ⟨_, rfl, rfl, rfl, rfl, rfl⟩
+
+/-! ## coverage, on every accepted trace -/
+
+/-- Coverage, judged: on every trace the judge accepts up to and including its
+    end-of-run check after a clean Stop, each recipient `u` of each presence-resolved
+    target batch of message `m` is EITHER without any online route — and then, for a
+    durable message, reported offline exactly as many times as batches list it (once
+    per plan) — OR online — and then never reported offline, while every route the
+    plan must push (owned, not the sender's own session) has a push attempt in the
+    trace. -/
+theorem c31_accept_cover_once (w : World) (rm : Nat) (tr : List Ev) (j : J)
+    (hr : runJ { world := w, retryMax := rm } tr = .ok j) (hs : j.stopOk = true) (hf : finalJ j = .ok ()) :
+    ∀ m u, (m, u) ∈ presPairs tr → ∃ i, lookup j.msgs m = some i ∧
+      (((w.routes u).isEmpty = true ∧ (i.mode = 1 → (offPairs tr).count (m, u) = (presPairs tr).count (m, u))) ∨
+       ((w.routes u).isEmpty = false ∧ (m, u) ∉ offPairs tr ∧ ∀ r ∈ pushRoutes w i u, (m, r.1, r.2) ∈ attKeys tr)) := by
+  have hI := runJ_inv tr [] _ j (jinv_init w rm) hr
+  simp only [List.nil_append] at hI
+  intro m u hmu
+  have hmem : (m, u) ∈ j.presOk := by
+    rw [← List.count_pos_iff, hI.hpres]; exact List.count_pos_iff.mpr hmu
+  unfold finalJ at hf
+  simp only [hs, Bool.not_true, Bool.false_eq_true, if_false] at hf
+  split at hf
+  · cases hf
+  · split at hf
+    · cases hf
+    · split at hf
+      · cases hf
+      · rename_i hnone
+        have hall := (List.findSome?_eq_none_iff.mp hnone) (m, u) hmem
+        simp only at hall
+        cases hl : lookup j.msgs m with
+        | none => simp [hl] at hall
+        | some i =>
+          simp only [hl] at hall
+          refine ⟨i, rfl, ?_⟩
+          rw [hI.hworld] at hall
+          cases he : (w.routes u).isEmpty with
+          | true =>
+            left
+            simp only [he, if_true] at hall
+            refine ⟨rfl, fun hmode => ?_⟩
+            rw [← hI.hoff, ← hI.hpres]
+            by_cases hne : j.offl.count (m, u) = j.presOk.count (m, u)
+            · exact hne
+            · exfalso; simp [hmode, hne] at hall
+          | false =>
+            right
+            simp only [he, Bool.false_eq_true, if_false] at hall
+            refine ⟨rfl, ?_, ?_⟩
+            · intro hin
+              have : (m, u) ∈ j.offl := by
+                rw [← List.count_pos_iff, hI.hoff]; exact List.count_pos_iff.mpr hin
+              have := (hI.hoffOk m u this).1
+              rw [he] at this; cases this
+            · intro r hr
+              have hany : ((pushRoutes w i u).any fun r => (lookup j.att (m, r.1, r.2)).isNone) = false := by
+                cases hb : ((pushRoutes w i u).any fun r => (lookup j.att (m, r.1, r.2)).isNone) with
+                | false => rfl
+                | true => simp [hb] at hall
+              have := (List.any_eq_false.mp hany) r hr
+              apply (hI.hatt _).mp
+              cases hlk : lookup j.att (m, r.1, r.2) with
+              | none => simp [hlk] at this
+              | some v => rfl
+
+example : ∃ j, runJ { world := [(1, [(1, 11)]), (2, [])], retryMax := 2 }
+    [.msg 1001 1 1 1 0 0 0 [1, 2], .enq 1001 true [(0, [1, 2])], .pres 1001 0 true [1, 2], .offline 1001 [2],
+     .write 1001 1 1 11 1, .stopRet true] = .ok j ∧ j.stopOk = true ∧ finalJ j = .ok () := ⟨_, rfl, rfl, rfl⟩
+
+/-! ## T tie (regenerated from plan_queue.go / runtime.go on every run) -/
+
+/-- The source still has the two facts the model rests on: `shardIndex` reads nothing of a
+    plan but its channel key (so `shardOf` is a function of the channel — the hypothesis of
+    `c31_channel_order`), and the only assignment to `push.Routes` in `pushWithRetry` is
+    `push.Routes = result.Retryable` on the answered path, the loop handing `push` to nothing
+    but `routeOwnerPush` (the shape of `retryLoop`). -/
+theorem c31_src_shard_key_and_retry :
+    WK.Gen.C31.shardKeyFields = ["plan.Event.ChannelID", "plan.Event.ChannelType"] ∧
+    WK.Gen.C31.routesAssigns = [("result.Retryable", ["err==nil"])] ∧
+    WK.Gen.C31.pushConsumers = ["r.routeOwnerPush"] := by decide
 
 end WK.C31
